@@ -1,3 +1,5 @@
+//go:build !c36small
+
 package main
 
 // In-memory implementation of gcsbackend.GCS (TRUSTED BASE of the listing
